@@ -28,6 +28,7 @@ fn header<'a, T: RtcpPacketParser<'a>>(out: &mut Out, pfx: &str, t: &T) {
     out.kv(pfx, "version", &num(|| t.version()));
     out.kv(pfx, "type", &num(|| t.type_()));
     out.kv(pfx, "count", &num(|| t.count()));
+    out.kv(pfx, "subtype", &num(|| t.subtype()));
     out.kv(pfx, "length", &num(|| t.length()));
 }
 
@@ -420,6 +421,7 @@ fn packet_body(out: &mut Out, pfx: &str, pkt: &Packet, bytes: &[u8], base: Base,
         Packet::Unknown(_) => "unknown",
     };
     out.kv(pfx, "variant", variant);
+    out.kv(pfx, "is_unknown", match guard(|| pkt.is_unknown()) { Some(true) => "true", Some(false) => "false", None => "panic" });
     header(out, pfx, pkt);
     match pkt {
         Packet::App(p) => {
